@@ -8,6 +8,7 @@ import (
 	"github.com/failsafe-go/failsafe-go/common"
 	"github.com/failsafe-go/failsafe-go/internal"
 	"github.com/failsafe-go/failsafe-go/internal/util"
+	"github.com/failsafe-go/failsafe-go/internal/verifhook"
 	"github.com/failsafe-go/failsafe-go/policy"
 )
 
@@ -55,6 +56,7 @@ func (e *executor[R]) Apply(innerFn func(failsafe.Execution[R]) *common.PolicyRe
 					Delay:            delay,
 				})
 			}
+			delay = verifhook.Wait(delay)
 			timer := time.NewTimer(delay)
 			select {
 			case <-timer.C:
@@ -62,6 +64,7 @@ func (e *executor[R]) Apply(innerFn func(failsafe.Execution[R]) *common.PolicyRe
 				timer.Stop()
 			}
 
+			verifhook.Yield("retry.beforeInitializeRetry")
 			// Prepare for next iteration
 			if cancelResult := execInternal.InitializeRetry(); cancelResult != nil {
 				return cancelResult
